@@ -85,7 +85,17 @@ func (e *Engine) invoke(g *Goroutine, cl *Closure, args []Value, callSite ssa.Va
 		}
 	}
 	if strings.HasPrefix(name, "redirect:") {
-		tf := e.entryPkg.Func(name[9:])
+		tgt := name[9:]
+		pkg := e.entryPkg
+		if i := strings.LastIndex(tgt, ":"); i >= 0 {
+			// "import/path:Func": redirect target in another package
+			pkg = e.prog.ImportedPackage(tgt[:i])
+			tgt = tgt[i+1:]
+			if pkg == nil {
+				e.abort("unsupported", "redirect target package not loaded: "+name[9:])
+			}
+		}
+		tf := pkg.Func(tgt)
 		if tf == nil {
 			e.abort("unsupported", "redirect target not found: "+name[9:])
 		}
